@@ -77,6 +77,9 @@ func build(t Tree, k int) error {
 	switch t.K {
 	case "J":
 		e := &jrpc2.Error{Code: jrpc2.Code(t.C), Message: fmt.Sprintf("jerr %d %s", k, msgText(k/len(dataVariants)))}
+		if k%3 == 1 {
+			e.Message = "" // no message at all: none arrives (not the standard text of the code, if it has one)
+		}
 		return e.WithData(dataVariants[k%len(dataVariants)])
 	case "K":
 		return jrpc2.Code(t.C).Err()
